@@ -10,6 +10,7 @@ use crate::{Ctx, Tier};
 use serde_json::{json, Value};
 use std::time::Duration;
 
+pub mod asyncprops;
 pub mod embedprops;
 pub mod handleprops;
 pub mod pairprops;
@@ -26,6 +27,7 @@ pub fn run_check(ctx: &Ctx, id: &str) -> i32 {
         "C04" => handleprops::run_c04(ctx),
         "C14" => handleprops::run_c14(ctx),
         "C02" => pairprops::run_c02(ctx),
+        "C15" => asyncprops::run_c15(ctx),
         "C16" => schedprops::run_c16(ctx),
         "C17" => schedprops::run_c17(ctx),
         "C13" => panicprops::run_c13(ctx),
